@@ -1,7 +1,7 @@
 (* C14 - turning pitches and timed notes into notation is lossless.
    Statements only; proofs in Proofs/ImportProofs.v. *)
-From ML Require Import Model.Types gen.Tables Model.Pitch Model.Rel Model.Render Model.Slice Model.Import Spec.PitchSpec.
-From ML Require Import Proofs.PitchProofs Proofs.RenderProofs Proofs.ImportProofs.
+From ML Require Import Model.Types gen.Tables Model.Pitch Model.Rel Model.Render Model.Slice Model.Import Spec.PitchSpec Spec.RenderSpec.
+From ML Require Import Proofs.PitchProofs Proofs.RenderProofs Proofs.ImportProofs Proofs.ImportContent.
 Open Scope Z_scope.
 
 (* for EVERY chord and EVERY pitch p in Z: notating p in the chord and reading it back gives p; the note is a scale
@@ -23,6 +23,43 @@ Theorem C14_bar_length : forall c notes bs be cont mel ret,
   parse_voice c notes bs be cont = Some (mel, ret) ->
   part_dur mel = be - bs /\ (forall e, ret = Some e -> 0 < e).
 Proof. exact parse_voice_fills_bar. Qed.
+
+(* what is written for the bar, note by note: the incoming tie as a continuation (or a rest up to the first note), then for each
+   input note a rest for the gap before it and the note - notated by Chord.parse, its own length cut at the bar line, its velocity -
+   then a rest to the bar line; what the last note holds beyond the bar line goes out as the tie *)
+Theorem C14_bar_content : forall c n0 notes bs be cont mel ret,
+  bs < be ->
+  monophonic (match cont with Some d => bs + d | None => bs end) (n0 :: notes) ->
+  (forall d, cont = Some d -> 0 <= d) ->
+  Forall (fun n => i_start n < be) (n0 :: notes) ->
+  parse_voice c (n0 :: notes) bs be cont = Some (mel, ret) ->
+  let le0 := match cont with Some d => bs + d | None => i_start n0 end in
+  let fin := last_end le0 (n0 :: notes) in
+  exists w, written c (n0 :: notes) le0 be = Some w /\
+    mel = bar_prefix cont bs (i_start n0) ++ w ++ (if fin <? be then [silence (be - fin)] else []) /\
+    ret = (if be <? fin then Some (fin - be) else None).
+Proof. exact parse_voice_content. Qed.
+
+(* losslessness, bar by bar: rendered by the Spec of C03 from the bar's start, the melody written for the bar sounds exactly the
+   input notes - pitch (every chord, via the parse round trip), onset, duration cut at the bar line, velocity - whatever tie comes
+   in; and exactly what was cut off is handed to the next bar, where it is written as a continuation (C14_bar_content with cont) *)
+Theorem C14_bar_sounds : forall c n0 notes bs be cont mel ret ref,
+  elem_ok c -> bs < be ->
+  monophonic (match cont with Some d => bs + d | None => bs end) (n0 :: notes) ->
+  (forall d, cont = Some d -> 0 <= d) ->
+  Forall (fun n => i_start n < be) (n0 :: notes) ->
+  parse_voice c (n0 :: notes) bs be cont = Some (mel, ret) ->
+  sounding ref (part_items mel c bs) = Some (map (heard be) (n0 :: notes)) /\
+  ret = (let fin := last_end (match cont with Some d => bs + d | None => i_start n0 end) (n0 :: notes) in
+         if be <? fin then Some (fin - be) else None).
+Proof. exact parse_voice_sounds. Qed.
+
+Example C14_ex_bar :
+  let c := mkC 0 (bare "") (mkT 0 MMaj 0) 0 in
+  option_map (fun x => (map tdur (fst x), snd x)) (parse_voice c [mkIN 2 3 4 80; mkIN 3 7 7 90] 0 4 (Some 1)) = Some ([1; 1; 1; 1], Some 3) /\
+  (do x <- parse_voice c [mkIN 2 3 4 80; mkIN 3 7 7 90] 0 4 (Some 1) ;; sounding None (part_items (fst x) c 0)) =
+    Some [mkSN 4 2 1 80; mkSN 7 3 1 90].
+Proof. exact parse_voice_sounds_ex. Qed.
 
 (* non-vacuity: a note held over two bar lines, in a voice that starts nothing in the middle bar *)
 Example C14_ex :
